@@ -155,4 +155,132 @@ theorem Counted.nonneg {s : Server} (h : Counted s) :
   rw [h.retained_eq, h.inflight_eq, h.subs_eq, h.connected_eq]
   exact ⟨Int.natCast_nonneg _, Int.natCast_nonneg _, Int.natCast_nonneg _, Int.natCast_nonneg _⟩
 
+/-! ### the registered objects (what the harness's `VerifActual` walks: `s.Clients.GetAll()`)
+
+The Go counters are compared with sums over the Clients MAP.  A client object that holds a session but is not
+(any more) in the map is an *orphan*; without orphans the sums over the map are the sums over all objects.
+Orphans do arise — see `C38_inflight_counterexample` in `Props/C38.lean` (`Clients.Delete(cl.ID)` at the end of
+`attachClient` deletes by id, whoever is registered under it). -/
+
+/-- the in-flight records of the registered client objects -/
+def sumReg (s : Server) : Nat := (s.clients.map (fun e => (getObj s e.2).inflight.length)).sum
+
+/-- the open network clients among the registered objects -/
+def liveReg (s : Server) : Nat := s.clients.countP (fun e => (getObj s e.2).isOpen && !(getObj s e.2).inline)
+
+/-- every client object that holds in-flight records, or is an open network client, is in the Clients map -/
+def NoOrphans (s : Server) : Prop :=
+  ∀ k, k < s.objs.length →
+    ((getObj s k).inflight.length != 0 || ((getObj s k).isOpen && !(getObj s k).inline)) = true →
+      s.clients.any (fun e => e.2 == k) = true
+
+instance (s : Server) : Decidable (NoOrphans s) := by unfold NoOrphans; infer_instance
+
+theorem nodup_of_map_nodup {α β} (f : α → β) (l : List α) (h : (l.map f).Nodup) : l.Nodup := by
+  induction l with
+  | nil => exact List.nodup_nil
+  | cons x xs ih =>
+    rw [List.map_cons, List.nodup_cons] at h
+    rw [List.nodup_cons]
+    exact ⟨fun hx => h.1 (List.mem_map.mpr ⟨x, hx, rfl⟩), ih h.2⟩
+
+theorem regIdx_nodup {s : Server} (hw : WF s) : (s.clients.map (·.2)).Nodup := by
+  have h1 : (s.clients.map (·.2)).map (fun i => (getObj s i).id) = s.clients.map (·.1) := by
+    rw [List.map_map]
+    apply List.map_congr_left
+    intro e he
+    exact (hw.clients_valid e.1 e.2 he).2
+  have := hw.clients_nodup
+  rw [← h1] at this
+  exact nodup_of_map_nodup _ _ this
+
+theorem range_perm_reg {s : Server} (hw : WF s) :
+    (List.range s.objs.length).Perm
+      (s.clients.map (·.2) ++ (List.range s.objs.length).filter (fun k => !(s.clients.map (·.2)).contains k)) := by
+  rw [List.perm_ext_iff_of_nodup List.nodup_range]
+  · intro a
+    simp only [List.mem_range, List.mem_append, List.mem_filter, Bool.not_eq_true', List.contains_eq_mem,
+      decide_eq_false_iff_not]
+    constructor
+    · intro ha
+      by_cases hm : a ∈ s.clients.map (·.2)
+      · exact Or.inl hm
+      · exact Or.inr ⟨ha, hm⟩
+    · rintro (hm | ⟨ha, _⟩)
+      · obtain ⟨e, he, rfl⟩ := List.mem_map.mp hm
+        exact (hw.clients_valid e.1 e.2 he).1
+      · exact ha
+  · rw [List.nodup_append]
+    refine ⟨regIdx_nodup hw, List.nodup_range.sublist List.filter_sublist, ?_⟩
+    intro a ha b hb hab
+    subst hab
+    have := (List.mem_filter.mp hb).2
+    simp only [Bool.not_eq_true', List.contains_eq_mem, decide_eq_false_iff_not] at this
+    exact this ha
+
+theorem sum_map_zero {α} (l : List α) (f : α → Nat) (h : ∀ x ∈ l, f x = 0) : (l.map f).sum = 0 := by
+  induction l with
+  | nil => rfl
+  | cons x xs ih =>
+    rw [List.map_cons, List.sum_cons, h x List.mem_cons_self, ih (fun y hy => h y (List.mem_cons_of_mem _ hy))]
+
+theorem countP_zero {α} (l : List α) (f : α → Bool) (h : ∀ x ∈ l, f x = false) : l.countP f = 0 := by
+  rw [List.countP_eq_zero]
+  intro x hx
+  rw [h x hx]
+  exact Bool.false_ne_true
+
+theorem unreg_of_filter {s : Server} {k : Nat}
+    (hk : k ∈ (List.range s.objs.length).filter (fun k => !(s.clients.map (·.2)).contains k)) :
+    k < s.objs.length ∧ s.clients.any (fun e => e.2 == k) = false := by
+  obtain ⟨h1, h2⟩ := List.mem_filter.mp hk
+  refine ⟨List.mem_range.mp h1, ?_⟩
+  simp only [Bool.not_eq_true', List.contains_eq_mem, decide_eq_false_iff_not] at h2
+  rw [List.any_eq_false]
+  intro e he
+  simp only [beq_iff_eq]
+  intro x
+  exact h2 (List.mem_map.mpr ⟨e, he, x⟩)
+
+/-- without orphans the registered objects hold all the in-flight records -/
+theorem sumReg_eq_sumAll {s : Server} (hw : WF s) (ho : NoOrphans s) : sumReg s = sumAll s := by
+  unfold sumReg sumAll
+  have h1 : s.objs.map (·.inflight.length) =
+      (List.range s.objs.length).map (fun k => (getObj s k).inflight.length) := by
+    have := map_getD_range s.objs ({} : Client)
+    conv => lhs; rw [← this]
+    rw [List.map_map]
+    rfl
+  have hz : (((List.range s.objs.length).filter (fun k => !(s.clients.map (·.2)).contains k)).map
+      (fun k => (getObj s k).inflight.length)).sum = 0 :=
+    sum_map_zero _ _ (fun k hk => by
+      obtain ⟨hlt, hun⟩ := unreg_of_filter hk
+      cases hl : (getObj s k).inflight.length with
+      | zero => rfl
+      | succ n =>
+        have := ho k hlt (by simp [hl])
+        rw [hun] at this
+        cases this)
+  rw [h1, ((range_perm_reg hw).map _).sum_nat, List.map_append, List.sum_append, hz, List.map_map, Nat.add_zero]
+  rfl
+
+/-- without orphans the registered objects include all the open network clients -/
+theorem liveReg_eq_liveClients {s : Server} (hw : WF s) (ho : NoOrphans s) : liveReg s = liveClients s := by
+  unfold liveReg liveClients
+  rw [← List.countP_eq_length_filter, ← countP_range_getD s.objs {} (fun c => c.isOpen && !c.inline)]
+  have hz : ((List.range s.objs.length).filter (fun k => !(s.clients.map (·.2)).contains k)).countP
+      (fun k => (s.objs.getD k {}).isOpen && !(s.objs.getD k {}).inline) = 0 :=
+    countP_zero _ _ (fun k hk => by
+      obtain ⟨hlt, hun⟩ := unreg_of_filter hk
+      cases hl : ((s.objs.getD k {}).isOpen && !(s.objs.getD k {}).inline) with
+      | false => rfl
+      | true =>
+        have := ho k hlt (by
+          show ((getObj s k).inflight.length != 0 || ((s.objs.getD k {}).isOpen && !(s.objs.getD k {}).inline)) = true
+          rw [hl]; simp)
+        rw [hun] at this
+        cases this)
+  rw [(range_perm_reg hw).countP_eq, List.countP_append, hz, Nat.add_zero, List.countP_map]
+  rfl
+
 end Mochi.Broker
